@@ -491,6 +491,53 @@ theorem parseHolds_relOf (o : Opts) (hdr0 : List Str) (conv : Str → Str → Va
     rw [dkeys_textMapping]
     exact relOf_ok_nodup o hdr0 conv f m hr
 
+/-- **fromFile_lookup** — the relation by lookups: when a file of the grammar is accepted and its
+    column names are distinct, the dict holds, for every data row and every column `c ≥ 1` of the
+    header, under the row's ID and the column's name, the conversion of the row's field `c`
+    (the empty text when the row is shorter). -/
+theorem fromFile_lookup {β : Type} (o : Opts) (hdr0 : List Str) (conv : Str → Str → β) (f : List GLine)
+    (h : fileOk o hdr0 f = true) (m : Mapping β) (hm : fromFileC o hdr0 conv (f.map GLine.render) = .ok m)
+    (hH : (fileHeader hdr0 f).tail.Nodup) (fs : List Field) (hfs : fs ∈ fileRows f)
+    (i : Nat) (hi : i < (fileHeader hdr0 f).tail.length) :
+    (dget m ((fs.map (Field.expect o)).headD [])).bind (fun e => dget e (fileHeader hdr0 f).tail[i]) =
+      some (conv (fileHeader hdr0 f).tail[i] (((fs.map (Field.expect o))[i + 1]?).getD [])) := by
+  rw [fromFile_relation o hdr0 conv f h] at hm
+  have hnd := relOf_ok_nodup o hdr0 conv f m hm
+  unfold relOf at hm
+  simp only at hm
+  split at hm
+  · cases hm
+  · split at hm
+    · cases hm
+    · cases hm
+      have hmem : ((rowVals o (fileHeader hdr0 f).length fs).headD [],
+          entryOf conv (fileHeader hdr0 f) (rowVals o (fileHeader hdr0 f).length fs)) ∈
+          ((fileRows f).map (rowVals o (fileHeader hdr0 f).length)).map
+            (fun v => (v.headD [], entryOf conv (fileHeader hdr0 f) v)) :=
+        List.mem_map_of_mem (List.mem_map_of_mem hfs)
+      have hid : (rowVals o (fileHeader hdr0 f).length fs).headD [] = (fs.map (Field.expect o)).headD [] :=
+        headD_pad _ _
+      rw [← hid, dget_self_of_nodup _ _ _ hnd hmem, Option.bind_some, dget_entryOf conv _ _ hH i hi]
+      have hlen : i + 1 < (fileHeader hdr0 f).length := by
+        have : (fileHeader hdr0 f).tail.length = (fileHeader hdr0 f).length - 1 := List.length_tail
+        omega
+      have hget : (rowVals o (fileHeader hdr0 f).length fs).tail[i]? =
+          (rowVals o (fileHeader hdr0 f).length fs)[i + 1]? := by
+        rw [List.getElem?_tail]
+      have hsome : ∃ x, (rowVals o (fileHeader hdr0 f).length fs)[i + 1]? = some x := by
+        have hl : i + 1 < (rowVals o (fileHeader hdr0 f).length fs).length := by
+          unfold rowVals pad
+          simp only [List.length_append, List.length_replicate, List.length_map]
+          omega
+        exact ⟨_, List.getElem?_eq_getElem hl⟩
+      obtain ⟨x, hx⟩ := hsome
+      have hpad := getD_pad (fileHeader hdr0 f).length (fs.map (Field.expect o)) (i + 1)
+      rw [hget, hx, Option.map_some]
+      unfold rowVals at hx
+      rw [hx] at hpad
+      rw [← hpad]
+      rfl
+
 /-- explicit, decidable hypotheses of `model_holds` -/
 def inputWF : Input α → Bool
   | .add t m ax => addWF t m ax && decide (t.md ax.other ≠ some [])
